@@ -12,11 +12,12 @@ pub struct Game<'a> {
     pub pending_pop: usize,
     pub dead: bool, // a panic was logged; the trace is rejected there, stop driving
     pub acts: usize,
+    pub resets: usize,
 }
 
 impl<'a> Game<'a> {
     pub fn new(tr: &'a mut Trace) -> Self {
-        Game { tr, stack: Vec::new(), pending_pop: 0, dead: false, acts: 0 }
+        Game { tr, stack: Vec::new(), pending_pop: 0, dead: false, acts: 0, resets: 0 }
     }
 
     pub fn top(&self) -> &GameState {
@@ -33,7 +34,14 @@ impl<'a> Game<'a> {
     }
 
     pub fn reset_parsed(&mut self, c: &[u8; 64], gold: bool, mn: usize, tag: &str) -> bool {
-        match state_from_cells(c, gold, mn) {
+        // rotate through the header forms the parser accepts: g/s, w/b, and no header at all
+        self.resets += 1;
+        let style = match self.resets % 5 {
+            1 => 1,
+            3 => 2,
+            _ => 0,
+        };
+        match state_from_cells_styled(c, gold, mn, style) {
             Ok(gs) => {
                 self.reset(gs, "parse", tag);
                 !self.dead
@@ -236,6 +244,103 @@ pub fn play(g: &mut Game, rng: &mut Rng, pol: Policy, max_actions: usize, probe_
         }
         if !g.step(&a) {
             return;
+        }
+        n += 1;
+    }
+}
+
+/// Random play confined to a region: only steps inside the region (and passes) are chosen when
+/// there are any, so that a handful of positions is revisited again and again.  The driver keeps
+/// its own occurrence table ONLY to steer (never to judge): it prefers to end turns in positions
+/// that have occurred exactly once, which saturates the neighbourhood with twice-seen positions
+/// and leads to the rare states in which most or all turn-ending actions are withheld.
+pub fn play_confined(g: &mut Game, rng: &mut Rng, region: &[usize], max_actions: usize, probe_p: f64) {
+    use std::collections::HashMap;
+    let mut seen: HashMap<([u8; 64], bool), u32> = HashMap::new();
+    {
+        let gs = g.top();
+        seen.insert((cells(gs.piece_board()), gs.is_p1_turn_to_move()), 1);
+    }
+    let mut n = 0;
+    while n < max_actions && !g.dead {
+        let gs = g.top().clone();
+        let r = guarded(|| {
+            stage("is_terminal");
+            let t = gs.is_terminal();
+            stage("valid_actions");
+            let off = gs.valid_actions();
+            stage("valid_actions_no_rep");
+            let norep = gs.valid_actions_no_rep();
+            (t, off, norep)
+        });
+        let (term, off, norep) = match r {
+            Ok(x) => x,
+            Err(p) => {
+                g.tr.panic_event(&p);
+                g.dead = true;
+                return;
+            }
+        };
+        if off.is_empty() || (term.is_some() && !rng.chance(0.1)) {
+            return;
+        }
+        if rng.chance(probe_p) || off.len() < norep.len() && rng.chance(0.3) {
+            for a in norep.iter() {
+                if !g.probe(a) {
+                    return;
+                }
+            }
+        }
+        let inside: Vec<Action> = off
+            .iter()
+            .filter(|a| match a {
+                Action::Move(sq, d) => {
+                    region.contains(&sq.index()) && dest_of(sq.index(), *d).map_or(false, |t| region.contains(&t))
+                }
+                Action::Pass => true,
+                _ => false,
+            })
+            .cloned()
+            .collect();
+        let pool = if inside.is_empty() || rng.chance(0.03) { off.clone() } else { inside };
+        let step = gs.current_step();
+        let gold = gs.is_p1_turn_to_move();
+        let mut ws: Vec<f64> = Vec::with_capacity(pool.len());
+        for a in pool.iter() {
+            let ends = matches!(a, Action::Pass) || step == 3;
+            let w = if ends {
+                match apply(&gs, a) {
+                    Ok(child) => {
+                        let key = (cells(child.piece_board()), !gold);
+                        match seen.get(&key) {
+                            Some(1) => 5.0,
+                            Some(_) => 1.0,
+                            None => 1.5,
+                        }
+                    }
+                    Err(_) => 1.0,
+                }
+            } else {
+                1.2
+            };
+            ws.push(w);
+        }
+        let total: f64 = ws.iter().sum();
+        let mut x = ((rng.next() >> 11) as f64) / ((1u64 << 53) as f64) * total;
+        let mut pick = pool[pool.len() - 1];
+        for (k, w) in ws.iter().enumerate() {
+            if x < *w {
+                pick = pool[k];
+                break;
+            }
+            x -= *w;
+        }
+        if !g.step(&pick) {
+            return;
+        }
+        let now = g.top();
+        if now.is_play_phase() && now.current_step() == 0 {
+            *seen.entry((cells(now.piece_board()), now.is_p1_turn_to_move())).or_insert(0) += 1;
         }
         n += 1;
     }
